@@ -77,11 +77,16 @@ def sibling_pair(rnd):
             b = rnd.choice(["", lst(6, (0, 2, 4))])
             c = rnd.choice(["", "|3|", "|0.25|"])
             return f"C{{[>][<{a}]CC[>{b}], [<{c}]C(C)C[>]; [<][H], [>]O[]}}|uniform(100, 300)|"
+        if kind == 3:
+            # a listed LEFT TERMINAL (its list is handed to the prefix's open descriptor at every generation)
+            a = rnd.choice([lst(5, range(5)), lst(5, range(4))])
+            c = rnd.choice(["", "|2|"])
+            return f"CC{{[${a}][$]CC[$], [${c}]C(N)C[$]; [$]F[]}}|uniform(60, 200)|"
         a = rnd.choice(["", lst(4, range(4))])
         w = rnd.choice(["", "|2|", "|5|"])
         return f"O{{[$][${a}]CC(F)[$], [${w}]CO[$][$]}}|uniform(80, 200)|[${w}]CC[$]{{[$][$]CS[$]; [$]Br[]}}|uniform(60, 150)|"
 
-    kind = rnd.randrange(3)
+    kind = rnd.randrange(4)
     for _ in range(50):
         x, y = variant(kind), variant(kind)
         if x != y:
